@@ -153,10 +153,12 @@ class Part:
         shrink_budget=400,
         exhaustive=False,
         procs=None,
+        strategy_thorough=None,
     ):
         self.name = name
         self.check = check
         self.strategy = strategy
+        self.strategy_thorough = strategy_thorough  # deeper bounds (sizes, lengths) for the thorough tier
         self.enumerate = enumerate
         self.budget = budget or {"quick": 200, "thorough": 2000}
         self.shrink_budget = shrink_budget
@@ -321,6 +323,8 @@ def _worker(job):
     part = next(p for p in mod.parts() if p.name == pname)
     try:
         if kind == "gen":
+            if tier == "thorough" and part.strategy_thorough is not None:
+                part.strategy = part.strategy_thorough
             return ("ok", pname, run_generated(mod.PROP, part, n, seed * 64 + shard, known))
         cases = [c for i, c in enumerate(part.enumerate(tier)) if i % nshards == shard]
         return ("ok", pname, run_enumerated(mod.PROP, part, cases, known))
